@@ -913,6 +913,7 @@ pub mod fastq {
             [C02,C03,C04,C05,C06|fastq.next.wf] final(self).wf() && final(self).f() == old(self).f(),
             [C02,C03,C04,C06|fastq.next.end] r is None ==> final(self).buf_reader.errs() == old(self).buf_reader.errs() && final(self).state == State::Finished
                 && (old(self).state == State::Finished || old(self).poisoned() || !old(self).clean() || end_ok(old(self).f(), old(self).cursor())),
+            [C02,C04,C20|fastq.next.end_is_sticky] old(self).state == State::Finished ==> r is None,
             [C02,C03,C04,C06,C12|fastq.next.record] r matches Some(Ok(rec)) ==> final(self).buf_reader.errs() == old(self).buf_reader.errs()
                 && old(self).state != State::Finished
                 && rec.buffer@ == final(self).b() && *rec.buf_pos == final(self).buf_pos && rec.buf_pos.valid(rec.buffer@)
@@ -1397,6 +1398,73 @@ trait RecordD {
         ensures
             [C03,C04|fastq.read_record_set.is_exact_none] final(self).wf() && final(rset).wf() && final(self).f() == old(self).f()
                 && (r matches Some(Ok(_)) ==> final(rset).n() >= 1),
+//@end
+}
+
+//@item fastq::RecordsIter
+//@impl_open fastq::Iterator for RecordsIter::next inherent=1
+//@fn fastq::Iterator for RecordsIter::next ret=r tags=C20,C04,C13
+//@spec
+        requires
+            old(self).rdr.wf(),
+        ensures
+            [C04,C06,C20|fastq.RecordsIter.next.wf] final(self).rdr.wf() && final(self).rdr.f() == old(self).rdr.f(),
+            [C20|fastq.RecordsIter.next.end_is_sticky] old(self).rdr.state == State::Finished ==> r is None && final(self).rdr.state == State::Finished,
+            [C04,C20|fastq.RecordsIter.next.end] r is None ==> final(self).rdr.state == State::Finished
+                && (old(self).rdr.state == State::Finished || old(self).rdr.poisoned() || !old(self).rdr.clean() || end_ok(old(self).rdr.f(), old(self).rdr.cursor())),
+            [C04,C13|fastq.RecordsIter.next.record] r matches Some(Ok(o)) ==> (!old(self).rdr.poisoned() && old(self).rdr.clean() ==> ({
+                    let (ff, p) = (old(self).rdr.f(), old(self).rdr.cursor());
+                    &&& group_complete(ff, p) && vok(ff, p)
+                    &&& o.head@ == g_head(ff, p) && o.seq@ == g_seq(ff, p) && o.qual@ == g_qual(ff, p)
+                    &&& final(self).rdr.cursor() == c4(ff, p) + 1 || final(self).rdr.state == State::Finished
+                })),
+//@closure 0 params="rec: Result<RefRecord, Error>" ret="(q: Result<OwnedRecord, Error>)"
+            requires rec matches Ok(x) ==> x.rwf()
+            ensures (rec matches Ok(x) ==> q matches Ok(o) && o.head@ == x.head_v() && o.seq@ == x.seq_v() && o.qual@ == x.qual_v()),
+                (rec matches Err(e) ==> q == Err::<OwnedRecord, Error>(e))
+//@closure 1 params="r: RefRecord" ret="(o: OwnedRecord)"
+            requires r.rwf()
+            ensures o.head@ == r.head_v() && o.seq@ == r.seq_v() && o.qual@ == r.qual_v()
+//@end
+}
+
+//@item fastq::RecordsIntoIter
+//@impl_open fastq::Iterator for RecordsIntoIter::next inherent=1
+//@fn fastq::Iterator for RecordsIntoIter::next ret=r tags=C20,C04,C13
+//@spec
+        requires
+            old(self).rdr.wf(),
+        ensures
+            [C04,C06,C20|fastq.RecordsIntoIter.next.wf] final(self).rdr.wf() && final(self).rdr.f() == old(self).rdr.f(),
+            [C20|fastq.RecordsIntoIter.next.end_is_sticky] old(self).rdr.state == State::Finished ==> r is None && final(self).rdr.state == State::Finished,
+            [C04,C20|fastq.RecordsIntoIter.next.end] r is None ==> final(self).rdr.state == State::Finished
+                && (old(self).rdr.state == State::Finished || old(self).rdr.poisoned() || !old(self).rdr.clean() || end_ok(old(self).rdr.f(), old(self).rdr.cursor())),
+            [C04,C13|fastq.RecordsIntoIter.next.record] r matches Some(Ok(o)) ==> (!old(self).rdr.poisoned() && old(self).rdr.clean() ==> ({
+                    let (ff, p) = (old(self).rdr.f(), old(self).rdr.cursor());
+                    &&& group_complete(ff, p) && vok(ff, p)
+                    &&& o.head@ == g_head(ff, p) && o.seq@ == g_seq(ff, p) && o.qual@ == g_qual(ff, p)
+                    &&& final(self).rdr.cursor() == c4(ff, p) + 1 || final(self).rdr.state == State::Finished
+                })),
+//@closure 0 params="rec: Result<RefRecord, Error>" ret="(q: Result<OwnedRecord, Error>)"
+            requires rec matches Ok(x) ==> x.rwf()
+            ensures (rec matches Ok(x) ==> q matches Ok(o) && o.head@ == x.head_v() && o.seq@ == x.seq_v() && o.qual@ == x.qual_v()),
+                (rec matches Err(e) ==> q == Err::<OwnedRecord, Error>(e))
+//@closure 1 params="r: RefRecord" ret="(o: OwnedRecord)"
+            requires r.rwf()
+            ensures o.head@ == r.head_v() && o.seq@ == r.seq_v() && o.qual@ == r.qual_v()
+//@end
+}
+
+//@impl_open fastq::Reader::records
+//@fn fastq::Reader::records ret=r tags=C20,C04
+//@spec
+        ensures
+            [C04,C20|fastq.records.same_reader] *r.rdr == *old(self) && *final(r.rdr) == *final(self),
+//@end
+//@fn fastq::Reader::into_records ret=r tags=C20,C04
+//@spec
+        ensures
+            [C04,C20|fastq.into_records.same_reader] r.rdr == self,
 //@end
 }
 
